@@ -1,6 +1,7 @@
 """C07 - binary round trip (clauses: TABLE header, section order, COVER field coverage, GUARD casts, TAINT str truncation, endianness)"""
 import re
 from engines import MutSummary, RefDeriv, endian_sites, positive_edges, user_root_locals, kinds_in_type, kind_of_callee
+from engines import check_required_steps
 from engines import check_complete_iteration
 from prov import Prov, params_of, field_names
 from props import codec
@@ -131,6 +132,9 @@ def run(ck, prog, ctx):
                 ck.ob("ORDER", "decoder/" + kind, okk, "%s decodes, propagates and stores %s records%s" % (nm, kind, "" if okk else ": " + "; ".join(why)), where=db.where())
 
     check_complete_iteration(ck, "ORDER", prog, [codec.ONT + "as_bytes", "term::internal::HpoTermInternal::parents_as_byte", "term::group::HpoGroup::as_bytes", "ontology::builder::Builder::<ontology::builder::AllTerms>::add_parent_from_bytes", "ontology::builder::Builder::<ontology::builder::LooseCollection>::add_terms_from_bytes"], "the records of a section")
+
+    if ab is not None:
+        check_required_steps(ck, "ORDER", prog, ab, [("write section " + lab, (lambda ll: (lambda t: codec.section_label(t.callee) == ll))(lab)) for lab in ("Terms", "Parents", "Gene", "Omim", "Orpha")] + [("write header", lambda t: (t.callee.res or "").endswith("::metadata_as_bytes"))])
 
     # ------------------------------------------------------------------ COVER
     n_rec = 0
